@@ -276,6 +276,18 @@ func createImageFunctions() { //nolint:funlen // this is a group of related func
 	createVectorImageFunctions(cdata)
 }
 
+// Path coordinates beyond this (or NaN/Inf) overflow the fixed point math of the rasterizer, which panics.
+const maxCoord = 1 << 20
+
+func checkCoords(args []object.Object) *object.Error {
+	for _, a := range args {
+		if f := a.(object.Float).Value; math.IsNaN(f) || math.Abs(f) > maxCoord {
+			return object.Errorfp("coordinate %v out of range (max %d)", f, maxCoord)
+		}
+	}
+	return nil
+}
+
 func createVectorImageFunctions(cdata ImageMap) { //nolint:funlen // this is a group of related functions.
 	imgFn := object.Extension{
 		Name:       "image.move_to",
@@ -289,6 +301,9 @@ func createVectorImageFunctions(cdata ImageMap) { //nolint:funlen // this is a g
 			img, ok := images[args[0]]
 			if !ok {
 				return object.Errorf("image %q not found", args[0].(object.String).Value)
+			}
+			if oerr := checkCoords(args[1:]); oerr != nil {
+				return *oerr
 			}
 			x := int(args[1].(object.Float).Value)
 			y := int(args[2].(object.Float).Value)
@@ -304,6 +319,9 @@ func createVectorImageFunctions(cdata ImageMap) { //nolint:funlen // this is a g
 		img, ok := images[args[0]]
 		if !ok {
 			return object.Errorf("image %q not found", args[0].(object.String).Value)
+		}
+		if oerr := checkCoords(args[1:]); oerr != nil {
+			return *oerr
 		}
 		x := int(args[1].(object.Float).Value)
 		y := int(args[2].(object.Float).Value)
@@ -393,6 +411,9 @@ func createVectorImageFunctions(cdata ImageMap) { //nolint:funlen // this is a g
 		if !ok {
 			return object.Errorf("image %q not found", args[0].(object.String).Value)
 		}
+		if oerr := checkCoords(args[1:]); oerr != nil {
+			return *oerr
+		}
 		x1 := int(args[1].(object.Float).Value)
 		y1 := int(args[2].(object.Float).Value)
 		x2 := int(args[3].(object.Float).Value)
@@ -413,6 +434,9 @@ func createVectorImageFunctions(cdata ImageMap) { //nolint:funlen // this is a g
 		img, ok := images[args[0]]
 		if !ok {
 			return object.Errorf("image %q not found", args[0].(object.String).Value)
+		}
+		if oerr := checkCoords(args[1:]); oerr != nil {
+			return *oerr
 		}
 		x1 := int(args[1].(object.Float).Value)
 		y1 := int(args[2].(object.Float).Value)
